@@ -549,6 +549,24 @@ def constant_setattr(f):
     if isinstance(e, ast.Call) and isinstance(e.func, ast.Attribute) and e.func.attr == '__contains__' and len(e.args) == 1 and not e.keywords:
       changed[0] = True
       return ast.copy_location(ast.Compare(left=expr(e.args[0]), ops=[ast.In()], comparators=[expr(e.func.value)]), e)
+    # operator.methodcaller('m', a)(obj) is obj.m(a);  operator.attrgetter('a')(obj) is obj.a;  operator.itemgetter(k)(obj) is obj[k]
+    if isinstance(e, ast.Call) and isinstance(e.func, ast.Call) and len(e.args) == 1 and not e.keywords and not isinstance(e.args[0], ast.Starred):
+      inner_ = e.func
+      fn_ = norm(inner_.func)
+      if fn_ in ('operator.methodcaller', 'methodcaller') and inner_.args and isinstance(inner_.args[0], ast.Constant) and isinstance(inner_.args[0].value, str) \
+          and inner_.args[0].value.isidentifier():
+        changed[0] = True
+        return expr(ast.copy_location(ast.Call(func=ast.Attribute(value=e.args[0], attr=inner_.args[0].value, ctx=ast.Load()), args=list(inner_.args[1:]), keywords=list(inner_.keywords)), e))
+      if fn_ in ('operator.attrgetter', 'attrgetter') and len(inner_.args) == 1 and isinstance(inner_.args[0], ast.Constant) and isinstance(inner_.args[0].value, str) \
+          and all(p_.isidentifier() for p_ in inner_.args[0].value.split('.')):
+        changed[0] = True
+        out_ = e.args[0]
+        for p_ in inner_.args[0].value.split('.'):
+          out_ = ast.Attribute(value=out_, attr=p_, ctx=ast.Load())
+        return expr(ast.copy_location(out_, e))
+      if fn_ in ('operator.itemgetter', 'itemgetter') and len(inner_.args) == 1:
+        changed[0] = True
+        return expr(ast.copy_location(ast.Subscript(value=e.args[0], slice=inner_.args[0], ctx=ast.Load()), e))
     # functools.partial(f, a, k=v)(b)  is  f(a, b, k=v)
     if isinstance(e, ast.Call) and isinstance(e.func, ast.Call) and norm(e.func.func) in ('functools.partial', 'partial') and e.func.args \
         and not any(isinstance(a, ast.Starred) for a in list(e.func.args) + list(e.args)) and not any(k.arg is None for k in list(e.func.keywords) + list(e.keywords)):
@@ -609,15 +627,17 @@ def constant_setattr(f):
       return ast.copy_location(ast.ListComp(elt=ast.Name(id=v, ctx=ast.Load()), generators=[ast.comprehension(
           target=ast.Name(id=v, ctx=ast.Store()), iter=expr(hit_[0]), ifs=[ast.Compare(left=ast.Name(id=v, ctx=ast.Load()), ops=[ast.In()], comparators=[expr(hit_[1])])],
           is_async=0)]), e)
-    # axis names of pandas/numpy calls: axis='columns' is axis=1, axis='index' / 'rows' is axis=0; X.to_list() is X.tolist()
-    if isinstance(e, ast.Call):
-      for k_ in e.keywords:
-        if k_.arg == 'axis' and isinstance(k_.value, ast.Constant) and k_.value.value in ('columns', 'index', 'rows'):
-          k_.value = ast.copy_location(ast.Constant(value=1 if k_.value.value == 'columns' else 0), k_.value)
-          changed[0] = True
-      if isinstance(e.func, ast.Attribute) and e.func.attr == 'to_list' and not e.args and not e.keywords:
-        e.func.attr = 'tolist'
+    # collections.OrderedDict([(k, v), ...]) / dict([(k, v), ...]) / dict(k=v, ...)  is the display {k: v, ...}
+    if isinstance(e, ast.Call) and norm(e.func) in ('collections.OrderedDict', 'OrderedDict', 'dict') and not any(k_.arg is None for k_ in e.keywords):
+      pairs_ = None
+      if len(e.args) == 1 and not e.keywords and isinstance(e.args[0], (ast.List, ast.Tuple)) \
+          and all(isinstance(p_, (ast.Tuple, ast.List)) and len(p_.elts) == 2 for p_ in e.args[0].elts) and e.args[0].elts:
+        pairs_ = [(p_.elts[0], p_.elts[1]) for p_ in e.args[0].elts]
+      elif not e.args and e.keywords and norm(e.func) == 'dict':
+        pairs_ = [(ast.Constant(value=k_.arg), k_.value) for k_ in e.keywords]
+      if pairs_ is not None:
         changed[0] = True
+        return ast.copy_location(ast.Dict(keys=[expr(k_) for k_, _v in pairs_], values=[expr(v_) for _k, v_ in pairs_]), e)
     if isinstance(e, (ast.FunctionDef, ast.ClassDef)):
       return e
     return dataflow._map_children(e, expr) if isinstance(e, ast.AST) else e
@@ -646,9 +666,22 @@ def constant_setattr(f):
         if fld in ('body', 'orelse', 'finalbody', 'handlers'):
           continue
         if isinstance(val, ast.AST):
-          setattr(st, fld, expr(val))
+          before_ = norm(val)
+          setattr(st, fld, dataflow.idioms(expr(val)) if isinstance(val, ast.expr) else expr(val))
+          if isinstance(val, ast.expr) and norm(getattr(st, fld)) != before_:
+            changed[0] = True
         elif isinstance(val, list):
-          setattr(st, fld, [expr(x) if isinstance(x, ast.AST) else x for x in val])
+          new_ = []
+          for x in val:
+            if isinstance(x, ast.expr) and not isinstance(getattr(x, 'ctx', None), ast.Store):
+              before_ = norm(x)
+              y = dataflow.idioms(expr(x))
+              if norm(y) != before_:
+                changed[0] = True
+              new_.append(y)
+            else:
+              new_.append(expr(x) if isinstance(x, ast.AST) else x)
+          setattr(st, fld, new_)
       out.append(st)
     return out
   node.body = block(node.body)
